@@ -779,6 +779,15 @@ XProg(v) ==
          mk(<<XF("P2", <<>>, "T2"), [XF("PBad", <<>>, "T3") EXCEPT !.res = <<"value", "value">>], XF("P1", <<"T2">>, "T1")>>,
             <<[SetD("SetA", "a", <<ItL(1)>>) EXCEPT !.grp = "g"], [SetD("SetB", "a", <<ItL(2)>>) EXCEPT !.grp = "g"]>>,
             <<XInj("Inject", <<>>, "T1", <<ItS(1), ItL(3)>>, 1)>>)
+    [] v = "value-in-shared-set" ->             \* one wire.Value expression reached by three injectors through a named set
+         mk(<<ValueL("V2", "T2"), XF("P1", <<"T2">>, "T1"), ValueL("V3", "*T3")>>, <<SetD("SetV", "a", <<ItL(1), ItL(3)>>)>>,
+            <<XInj("InjectA", <<>>, "T1", <<ItS(1), ItL(2)>>, 1), XInj("InjectB", <<>>, "T2", <<ItS(1)>>, 1), XInj("InjectC", <<>>, "*T3", <<ItS(1)>>, 2)>>)
+    [] v = "two-files-first-unused" ->          \* the injector with the superfluous item sits in the first of two injector files
+         mk(<<XF("P1", <<>>, "T1"), XF("P3", <<>>, "T3"), XF("P8", <<>>, "T8")>>, <<>>,
+            <<XInj("InjectA", <<>>, "T1", <<ItL(1), ItL(3)>>, 1), XInj("InjectB", <<>>, "T3", <<ItL(2)>>, 2)>>)
+    [] v = "structlit-dup-fields" ->            \* the deprecated struct-literal provider over a struct with two fields of one type
+         [mk(<<StructLitL("SL", "S5"), XF("P2", <<>>, "T2"), XF("Q", <<"S5">>, "T1")>>, <<>>,
+             <<XInj("Inject", <<>>, "T1", <<ItL(1), ItL(2), ItL(3)>>, 1)>>) EXCEPT !.atoms = XAtoms \o <<StructT("S5", "a", <<Fld("A", "T2"), Fld("B", "T2")>>)>>]
     [] v = "same-set-twice-direct" ->          \* one set listed twice in the same call
          mk(<<XF("P2", <<>>, "T2"), XF("P1", <<"T2">>, "T1")>>, <<SetD("SetA", "a", <<ItL(1)>>)>>,
             <<XInj("Inject", <<>>, "T1", <<ItS(1), ItL(2), ItS(1)>>, 1)>>)
@@ -799,7 +808,8 @@ XVariants == {"star-foreign-tag-missing", "star-foreign-tag-ok", "two-files-firs
               "embedded-fields-struct", "embedded-fields-fieldsof", "same-text-values-two-packages",
               "sets-in-injector-file", "same-provider-twice-direct", "same-provider-twice-in-set",
               "cycle-through-pointer-types", "cycle-behind-bound-interface", "bind-to-field-type", "variadic-dup-param", "arg-returned-directly-full-sig",
-              "struct-both-forms-plus-superfluous", "same-name-packages-one-unused", "blank-param-conflicts-with-set", "embed-in-injector-file", "same-name-packages-poorer-set", "multi-name-var-sets-bind", "multi-name-var-sets-badsig"}
+              "struct-both-forms-plus-superfluous", "same-name-packages-one-unused", "blank-param-conflicts-with-set", "embed-in-injector-file", "same-name-packages-poorer-set", "multi-name-var-sets-bind", "multi-name-var-sets-badsig",
+              "value-in-shared-set", "two-files-first-unused", "structlit-dup-fields"}
 FamilyX(p, vs) == \E v \in vs : p = XProg(v)
 
 (* ======================================================================== *)
